@@ -93,6 +93,14 @@ fn main() {
     match args[1].as_str() {
         "rec-ops" => rec_ops(&m),
         "rec-tri" => rec_tri(&m),
+        "rerun" => {
+            let text = std::fs::read_to_string(gets(&m, "file", "")).expect("read file");
+            let mut sid = geti(&m, "sid0", 1) as u64;
+            for line in text.lines().filter(|l| !l.trim().is_empty()) {
+                println!("{}", ops::rerun(line, Some(sid)));
+                sid += 1;
+            }
+        }
         c => {
             eprintln!("unknown command {}", c);
             std::process::exit(2);
